@@ -245,9 +245,12 @@ class DataChunk:
         dtype = get_array_dtype(inputs.keys())
         array = np.empty(num_records, dtype=dtype)
 
-        asarray_func = np.asarray_chkfinite if chkfinite else np.asarray
         for name, value in inputs.items():
-            array[name] = asarray_func(value)
+            array[name] = np.asarray(value)
+            # check the converted values, np.asarray_chkfinite() skips inputs of
+            # dtype object (e.g. columns of a mixed-type data frame)
+            if chkfinite and not np.isfinite(array[name]).all():
+                raise ValueError("array must not contain infs or NaNs")
 
         if degrees:
             array["ra"] = np.deg2rad(array["ra"])
